@@ -572,10 +572,23 @@ class Gen:
         driver rebuilds the unit without E23/E25."""
         b = cl.bar
         if cl.arrow is not None: return False
-        if b < 3 or st[b - 1].text != "(" or st[b - 3].text != ".": return False
-        meth = st[b - 2].text
-        if meth not in ("map", "and_then", "filter", "ok_or_else", "unwrap_or_else", "or_else", "map_err", "is_some_and"): return False
-        close = rs.match_close(st, b - 1)
+        dflt = None
+        if b >= 5 and st[b - 1].text == ",":
+            # `X.map_or(D, |p| B)` with a constant D (evaluating a constant lazily instead of eagerly is unobservable)
+            o = rs.enclosing_open(st, b, fp.body_open + 1)
+            if o is None or st[o].text != "(" or st[o - 1].text != "map_or" or st[o - 2].text != ".": return False
+            dt = st[o + 1:b - 1]
+            if not dt or any((t.kind == "punct" and t.text not in ("::", "{", "}", ",", ":", "-", "&")) or (t.kind == "ident" and t.text[:1].islower() and t.text not in ("true", "false"))
+                             or t.kind not in ("ident", "punct", "lit") for t in dt): return False
+            if rs.match_close(st, o) != cl.body_hi + 1: return False
+            dflt = src[dt[0].start:dt[-1].end]
+            meth = "map_or"; call_open = o
+        else:
+            if b < 3 or st[b - 1].text != "(" or st[b - 3].text != ".": return False
+            meth = st[b - 2].text
+            if meth not in ("map", "and_then", "filter", "ok_or_else", "unwrap_or_else", "or_else", "map_err", "is_some_and"): return False
+            call_open = b - 1
+        close = rs.match_close(st, call_open)
         if close != cl.body_hi + 1: return False
         # parameters: identifiers (optionally `mut`, optionally `: Type`) or `_`
         pats = []
@@ -598,7 +611,8 @@ class Gen:
         body = st[cl.body_lo:cl.body_hi + 1]
         for t in body:
             if (t.kind == "punct" and t.text in ("?", "|", "||")) or (t.kind == "ident" and t.text in ("return", "break", "continue", "await", "move")): return False
-        start = rs.postfix_start(st, b - 3, fp.body_open + 1)
+        dot = call_open - 2
+        start = rs.postfix_start(st, dot, fp.body_open + 1)
         if start is None: return False
         if meth in ("map", "filter") and st[b - 4].text == ")":
             o = b - 4; depth = 0
@@ -611,7 +625,7 @@ class Gen:
             if st[o - 1].kind == "ident" and st[o - 1].text in self.ITER_METHODS: return False
         a0, b0 = st[start].start, st[close].end
         if any(not (e <= a0 or s0 >= b0) for (s0, e, _, _) in sp.ops): return False
-        recv = src[st[start].start:st[b - 3].start].rstrip()
+        recv = src[st[start].start:st[dot].start].rstrip()
         btxt = src[st[cl.body_lo].start:st[cl.body_hi].end]
         n = len(names)
         P = names[0] if n >= 1 else None
@@ -628,6 +642,8 @@ class Gen:
         elif meth == "or_else" and n == 1: arms = f"Ok(v__) => Ok(v__), Err({P}) => {btxt}"
         elif meth == "map_err" and n == 1: arms = f"Ok(v__) => Ok(v__), Err({P}) => Err({btxt})"
         elif meth == "is_some_and" and n == 1: arms = f"Some({P}) => {btxt}, None => false"
+        elif meth == "map_or" and n == 1 and not E25_RESULT: arms = f"Some({P}) => {btxt}, None => {dflt}"
+        elif meth == "map_or" and n == 1: arms = f"Ok({P}) => {btxt}, Err(_) => {dflt}"
         if arms is None: return False
         new = f"(match {recv} {{ {arms} }})"
         sp.replace(a0, b0, REP("E25", src[a0:b0], new))
@@ -1215,6 +1231,23 @@ class Gen:
                         elif st[i - 1].text in (";", "{", "}"):
                             hits.append(i)
                     i += 1
+                if (nth < 1 or nth > len(hits)) and not inside:
+                    # the statement no longer BEGINS with the anchor text (its binding or its shape was rewritten): fall back to the n-th
+                    # statement that CONTAINS the anchor's last call (`msg.get_cap(`, `create_accounts(`, `TOKEN_INFO.save(`)
+                    calls = [m for m in re.finditer(r"((?:[A-Za-z_]\w*\s*(?:::|\.)\s*)*[A-Za-z_]\w*)\s*\(", anchor)
+                             if m.group(1).split(".")[-1].split("::")[-1].strip() not in ("Some", "Ok", "Err")]
+                    if calls:
+                        ftoks = [t.text for t in rs.sig(rs.tokenize(calls[-1].group(1) + "("))]
+                        fh = []
+                        i = fp.body_open + 1
+                        while i < fp.body_close - len(ftoks) + 1:
+                            if [t.text for t in st[i:i + len(ftoks)]] == ftoks:
+                                b0 = rs.stmt_start(st, i, fp.body_open + 1)
+                                if b0 is not None and b0 not in fh: fh.append(b0)
+                            i += 1
+                        if 1 <= nth <= len(fh):
+                            hits = fh
+                            info.setdefault("relocated_hints", []).append(f"{anchor} #{nth} -> statement containing {calls[-1].group(1)}(")
                 if nth < 1 or nth > len(hits):
                     # soft anchor: a proof hint whose statement is gone is skipped (a missing hint can only make a
                     # proof fail, never succeed); recorded so that the report can say so
